@@ -63,12 +63,17 @@ RECURSIVE DedupFrom(_, _, _)
 DedupFrom(xs, i, acc) == IF i > Len(xs) THEN acc ELSE DedupFrom(xs, i + 1, SetAdd(acc, xs[i]))
 Dedup(xs) == DedupFrom(xs, 1, <<>>)
 
+SharedChild == [t |-> "obj", c |-> "Child", a |-> [v |-> PInt(1), ws |-> PLst(<<PInt(1)>>)], x |-> [_ |-> PMissing], ov |-> [_ |-> FALSE]]
+
 \* ------------------------------------------------------------------ callbacks (fixed pool, implemented identically in Python)
 ApplyFn(f, v) ==
   CASE f \in {"none", "same"} -> Ok(v)
     [] f = "inc"   -> IF IsIntLike(v) THEN Ok(PInt((IntVal(v) + 1) % 3)) ELSE Err(v, {"TypeError"})
     [] f = "pclip" -> IF IsIntLike(v) THEN Ok(PInt(IF IntVal(v) > 1 THEN 1 ELSE IntVal(v))) ELSE Ok(v)   \* total, idempotent preparer
     [] f = "tostr" -> Ok(PStr("s"))
+    \* callbacks that hand back a PRE-EXISTING object which is neither their input nor new (a registry entry): the library must not modify it
+    [] f = "shared"  -> Ok(SharedChild)
+    [] f = "plookup" -> IF v = PStr("s") THEN Ok(SharedChild) ELSE Ok(v)
     [] f = "zero"  -> Ok(PInt(0))
     [] f = "boom"  -> Err(v, {"ZeroDivisionError"})
     [] f = "boom1" -> IF IsIntLike(v) /\ IntVal(v) = 1 THEN Err(v, {"ZeroDivisionError"}) ELSE Ok(v)   \* raises on input 1
@@ -86,13 +91,14 @@ RECURSIVE Construct(_, _, _), SetAttrVal(_, _, _, _), Prepare(_, _, _, _, _), Pr
 DefaultOf(CT, c, a) == ASpec(CT, c, a).dv
 PropNames(CT, c) == {CT[c].props[j].name : j \in 1..Len(CT[c].props)}
 BlankX(CT, c) == [q \in PropNames(CT, c) \cup {"_"} |-> PMissing]      \* property cache/override slots ("_" keeps the record non-empty)
+BlankOv(CT, c) == [q \in PropNames(CT, c) \cup {"_"} |-> FALSE]        \* ghost: which slots hold a user override (not observable in the instance dict)
 
 \* Cls(**kw): unknown keyword -> TypeError; every attribute, in declaration order, is assigned its keyword value or else its
 \* default (defaults go through the preparer and the type check like any assignment)
 Construct(CT, c, kw) ==
   IF ~(KwNames(kw) \subseteq AttrSet(CT, c)) THEN Err(PMissing, {"TypeError"})
   ELSE IF KeyOf(CT, c) # "" /\ KeyOf(CT, c) \notin KwNames(kw) /\ IsMissing(DefaultOf(CT, c, KeyOf(CT, c))) THEN Err(PMissing, {"TypeError"})
-  ELSE LET blank == [t |-> "obj", c |-> c, a |-> [n \in AttrSet(CT, c) |-> PMissing], x |-> BlankX(CT, c)]
+  ELSE LET blank == [t |-> "obj", c |-> c, a |-> [n \in AttrSet(CT, c) |-> PMissing], x |-> BlankX(CT, c), ov |-> BlankOv(CT, c)]
            all == [j \in 1..Len(Attrs(CT, c)) |-> [k |-> Attrs(CT, c)[j],
                                                    v |-> IF Attrs(CT, c)[j] \in KwNames(kw) /\ ~IsMissing(KwGet(kw, Attrs(CT, c)[j]))
                                                          THEN KwGet(kw, Attrs(CT, c)[j]) ELSE DefaultOf(CT, c, Attrs(CT, c)[j])]]
@@ -188,7 +194,7 @@ PropDef(CT, c, p) == CT[c].props[CHOOSE j \in 1..Len(CT[c].props) : CT[c].props[
 \* reset one dependant: a managed attribute goes back to its default, a property loses its cache/override entry
 ResetOne(CT, o, n) ==
   IF n \in AttrSet(CT, o.c) THEN [o EXCEPT !.a[n] = DefaultOf(CT, o.c, n)]
-  ELSE [o EXCEPT !.x[n] = PMissing]
+  ELSE [o EXCEPT !.x[n] = PMissing, !.ov[n] = FALSE]
 RECURSIVE InvalidateSet(_, _, _, _)
 InvalidateSet(CT, o, todo, done) ==
   IF todo = {} THEN o
@@ -215,6 +221,8 @@ With(CT, o, a, v, kw) ==
 UpdateA(CT, o, a, v, kw) ==
   LET T == ASpec(CT, o.c, a).ty old == o.a[a] IN
   IF v = Unchanged THEN Ok(o)
+  \* (a replacement value that still needs the preparer, combined with keywords: the order of the two is not documented)
+  ELSE IF ~IsMissing(v) /\ kw # <<>> /\ ASpec(CT, o.c, a).prep # "none" THEN Err(o, {"unspecified"})
   ELSE IF ~IsMissing(v) THEN With(CT, o, a, v, kw)
   ELSE IF ~IsSpecTy(CT, T) THEN (IF kw = <<>> /\ ~IsMissing(old) THEN With(CT, o, a, old, <<>>) ELSE Err(o, {"unspecified"}))
   ELSE IF IsMissing(old) THEN With(CT, o, a, PMissing, kw)
@@ -403,9 +411,32 @@ TransformTop(CT, o, kwf) ==
                                    ELSE LET cm == Commit(CT, cur, kwf[i].k, p.val) IN IF IsOk(cm) THEN Go(cm.val, i + 1) ELSE Err(o, cm.res)
        IN Go(o, 1)
 
+\* ------------------------------------------------------------------ derived values: spec_property reads, overrides, deletions (C11)
+RECURSIVE ReadProp(_, _, _), EvalGetter(_, _, _)
+RP(o, v, res) == [o |-> o, v |-> v, res |-> res]
+\* getters of the pool; each reads exactly what the scenario declares as its dependencies
+EvalGetter(CT, o, g) ==
+  CASE g = "a_plus_10" -> IF IsIntLike(o.a.a) THEN RP(o, PInt(IntVal(o.a.a) + 10), {"ok"}) ELSE RP(o, PMissing, {"AttributeError", "TypeError"})
+    [] g = "a_plus_b"  -> IF IsIntLike(o.a.a) /\ IsIntLike(o.a.b) THEN RP(o, PInt(IntVal(o.a.a) + IntVal(o.a.b)), {"ok"}) ELSE RP(o, PMissing, {"AttributeError", "TypeError"})
+    [] g = "c_plus_1"  -> IF IsIntLike(o.a.c) THEN RP(o, PInt(IntVal(o.a.c) + 1), {"ok"}) ELSE RP(o, PMissing, {"AttributeError", "TypeError"})
+    [] g = "len_xs"    -> IF o.a.xs.t = "list" THEN RP(o, PInt(Len(o.a.xs.e)), {"ok"}) ELSE RP(o, PMissing, {"AttributeError", "TypeError"})
+    [] g = "p_times_2" -> LET r == ReadProp(CT, o, "p") IN IF r.res = {"ok"} /\ IsIntLike(r.v) THEN RP(r.o, PInt(2 * IntVal(r.v)), {"ok"}) ELSE RP(o, PMissing, {"AttributeError", "TypeError"})
+\* a read: the stored entry (override or cache) if any, else the getter on current state; cached when caching is on
+ReadProp(CT, o, p) ==
+  IF ~IsMissing(o.x[p]) THEN RP(o, o.x[p], {"ok"})
+  ELSE LET pd == PropDef(CT, o.c, p) g == EvalGetter(CT, o, pd.getter) IN
+       IF g.res # {"ok"} THEN RP(o, PMissing, g.res)
+       ELSE RP(IF pd.cache THEN [g.o EXCEPT !.x[p] = g.v] ELSE g.o, g.v, {"ok"})
+\* what a read returns WITHOUT the caches: the declarative reference for freshness
+RECURSIVE Recompute(_, _, _)
+Recompute(CT, o, p) == LET blank == [o EXCEPT !.x = [q \in DOMAIN o.x |-> IF o.ov[q] THEN o.x[q] ELSE PMissing]] IN ReadProp(CT, blank, p).v
+\* C11: a cache entry never differs from what the getter gives on current state
+Fresh(CT, o) == \A p \in PropNames(CT, o.c) : (~IsMissing(o.x[p]) /\ ~o.ov[p]) => o.x[p] = Recompute(CT, o, p)
+\* managed attributes declared invalidated_by are back at their default unless re-assigned since (not tracked): only property caches are judged by Fresh
+
 \* ------------------------------------------------------------------ the step function
 Frozen(CT, o) == CT[o.c].frozen
-IsInplaceForm(act) == act.op \in {"setattr", "delattr"} \/ ("inplace" \in DOMAIN act /\ act.inplace)
+IsInplaceForm(act) == act.op \in {"setattr", "delattr", "read", "override", "delprop"} \/ ("inplace" \in DOMAIN act /\ act.inplace)
 Apply(CT, o, act) ==
   LET noop == [val |-> o, res |-> {"ok"}, same |-> TRUE]
       out(r, inplace) == [val |-> r.val, res |-> r.res, same |-> inplace]
@@ -424,6 +455,10 @@ Apply(CT, o, act) ==
          [] act.op = "transform_top" -> IF act.kwf = <<>> THEN noop
                                            ELSE out(TransformTop(CT, o, act.kwf), inpl)
          [] act.op = "reset_top" -> out(Ok(ResetAll(CT, o, 1)), inpl)
+         [] act.op = "read"     -> LET r == ReadProp(CT, o, act.p) IN [val |-> IF r.res = {"ok"} THEN r.o ELSE o, res |-> r.res, same |-> TRUE, ret |-> r.v]
+         [] act.op = "override" -> [val |-> Invalidate(CT, [o EXCEPT !.x[act.p] = act.v, !.ov[act.p] = TRUE], act.p), res |-> {"ok"}, same |-> TRUE]
+         [] act.op = "delprop"  -> IF IsMissing(o.x[act.p]) THEN [val |-> o, res |-> {"AttributeError"}, same |-> TRUE]
+                                   ELSE [val |-> Invalidate(CT, [o EXCEPT !.x[act.p] = PMissing, !.ov[act.p] = FALSE], act.p), res |-> {"ok"}, same |-> TRUE]
 
 
 IsNoopForm(act) == \/ (act.op = "update_top" /\ act.kw = <<>>) \/ (act.op = "transform_top" /\ act.kwf = <<>>)
